@@ -36,9 +36,10 @@ Theorem C05_request_complete_idempotent : forall cb g i c t,
 Proof. exact request_complete_idempotent. Qed.
 Print Assumptions C05_finalize_only_when_complete.
 
-(* ---- the full statement is false of the code: refused CONNECT (known finding F4) ---- *)
-(* CONNECT, a 403 answer, then the next exchange: htp_tx_state_response_complete_ex returns DATA_OTHER before the
-   transaction is detached, the response side finalises it again later: TRANSACTION_COMPLETE twice for transaction 0 *)
+(* ---- refused CONNECT (former finding F4): fixed ---- *)
+(* CONNECT, a 403 answer, then the next exchange: htp_tx_state_response_complete_ex used to return DATA_OTHER before the
+   transaction was detached, and the response side finalised it again later (TRANSACTION_COMPLETE twice for transaction 0).
+   The response is now wrapped up (finalize, detach) before DATA_OTHER is returned: the history is accepted *)
 Definition c05_w_ops : list cp_op := [OpOpen;
    OpReqData [67;79;78;78;69;67;84;32;97;58;52;52;51;32;72;84;84;80;47;49;46;49;13;10;72;111;115;116;58;32;97;13;10;13;10;71;69;84;32;47;49;32;72;84;84;80;47;49;46;49;13;10;72;111;115;116;58;32;97;13;10;13;10]%N;
    OpResData [72;84;84;80;47;49;46;49;32;52;48;51;32;70;111;114;98;105;100;100;101;110;13;10;67;111;110;116;101;110;116;45;76;101;110;103;116;104;58;32;48;13;10;13;10]%N;
@@ -46,10 +47,21 @@ Definition c05_w_ops : list cp_op := [OpOpen;
    OpResData [72;84;84;80;47;49;46;49;32;50;48;48;32;79;75;13;10;67;111;110;116;101;110;116;45;76;101;110;103;116;104;58;32;48;13;10;13;10]%N;
    OpClose].
 Definition c05_w_g : cfg := cp_make_cfg 1 (Z.to_nat 18000) 512 false false 0.
+Example C05_F4_fixed : chk_C05 (obs_run (fun _ _ => CB_OK) c05_w_g connp_new c05_w_ops) = true.
+Proof. vm_compute. reflexivity. Qed.
+
+(* ---- the full statement is false of the code: response-line-after-body (known finding) ---- *)
+(* GET, then a response whose first line is not a status line ("junk-line", taken as a body without headers), more body,
+   then a valid status line in the same data: RESPONSE_LINE (11) again for transaction 0 whose response progress is
+   already BODY (4) *)
+Definition c05_w2_ops : list cp_op := [OpOpen;
+   OpReqData [71;69;84;32;47;49;32;72;84;84;80;47;49;46;49;13;10;72;111;115;116;58;32;97;13;10;13;10]%N;
+   OpResData [106;117;110;107;45;108;105;110;101;13;10;120;120;45;109;111;114;101;13;10;72;84;84;80;47;49;46;49;32;52;48;55;32;80;114;111;120;121;13;10;67;111;110;116;101;110;116;45;76;101;110;103;116;104;58;32;48;13;10;13;10]%N;
+   OpClose].
 Theorem C05_lifecycle_full_refuted : ~ C05_lifecycle_full.
-Proof. intros H. specialize (H (fun _ _ => CB_OK) c05_w_g c05_w_ops). vm_compute in H. discriminate. Qed.
+Proof. intros H. specialize (H (fun _ _ => CB_OK) c05_w_g c05_w2_ops). vm_compute in H. discriminate. Qed.
 Print Assumptions C05_lifecycle_full_refuted.
-Example C05_F4_reject : C05_rejects (obs_run (fun _ _ => CB_OK) c05_w_g connp_new c05_w_ops) = [(0%nat, (18%nat, mklc 6 6 true))].
+Example C05_line_after_body_reject : C05_rejects (obs_run (fun _ _ => CB_OK) c05_w_g connp_new c05_w2_ops) = [(0%nat, (11%nat, mklc 6 4 false))].
 Proof. vm_compute. reflexivity. Qed.
 
 (* non-vacuity: a complete exchange is accepted *)
